@@ -128,3 +128,52 @@ contract(f"{PV}.solve", setup=setup_psolve,
                             q.forall(c.n0 + 1, toz3(c.self.attrs["iteration"]), lambda j: PMEAS(j) >= c.thr, name="j"),
                             z3.Or(PMEAS(toz3(c.self.attrs["iteration"])) < c.thr, toz3(c.self.attrs["iteration"]) == c.n0 + c.maxit)),
              "policy_greedy": lambda c, q: q.forall(0, N, lambda x: c.self.attrs["policy"].vec((x,)) == AC(Greedy(c.self.attrs["values"], c.gamma, ST(x)))) if isinstance(c.self.attrs["policy"], SArr) else z3.BoolVal(False)})
+
+# ---------------- dispatch of the measure, initialisation of the ring buffer, thresholds, clearing (C07 / C08)
+def setup_gps(I):
+    s, Pb, dims, gamma, P, n, hi, hist = mk_periodic(I)
+    W = z3.Function("NEWV", I_, R_); new = SArr((N,), lambda idx: W(toz3(idx[0]))); old = SArr((N,), lambda idx: VALF(n - 1, toz3(idx[0])))
+    I.assume(z3.And(gamma > 0, gamma <= 1))
+    WD, ND = z3.Real("measure_with_discount"), z3.Real("measure_without_discount")
+    # the two implementations are verified separately; here only the dispatch is under contract
+    contract(f"{PV}._calculate_period_span_without_discount", returns=lambda c: ND, ensures={}, setup=None)
+    contract(f"{PV}._calculate_period_span_with_discount", returns=lambda c: WD, ensures={}, setup=None)
+    return Ctx(self=s, _args=[new, old, hi, P, hist, n, gamma], P=P, n=n, gamma=gamma, WD=WD, ND=ND)
+def post_gps(c, q):
+    r = c.result
+    if isinstance(r, float) and r == float("inf"): return c.n < c.P                       # infinite measure exactly before a full period has elapsed
+    return z3.And(c.n >= c.P, toz3(r) == z3.If(c.gamma == 1, c.ND, c.WD))
+contract(f"{PV}._get_periodic_span", setup=setup_gps, ensures={"infinite_before_a_full_period_else_the_documented_measure_for_gamma": post_gps})
+
+from contracts.rvi import SOLV
+def setup_pinit(I):
+    s, Pb, dims, gamma = mk_solver(I, "PeriodicValueIteration", "mdpax.solvers.periodic_value_iteration")
+    I.call(I.getattr(s, "_setup_jax_functions"), [], {})
+    P = z3.Int("period"); I.assume(P >= 1)
+    s.attrs.update({"period": P, "batched_states": prepared(Pb, dims)})
+    return Ctx(self=s, _args=[], P=P)
+def post_pinit(c, q):
+    s = c.self; x = z3.Int("s!pi"); q.hyps += [x >= 0, x < N]
+    h = s.attrs["value_history"]
+    return z3.And(toz3(s.attrs["iteration"]) == 0, toz3(s.attrs["history_index"]) == 0, z3.BoolVal(s.attrs["policy"] is None),
+                  toz3(h.shape[0]) == c.P + 1, toz3(h.shape[1]) == N, toz3(h.get((0, x))) == INITV(ST(x)), toz3(s.attrs["values"].get((x,))) == INITV(ST(x)))
+contract(f"{PV}._initialize_solver_state_elements", setup=setup_pinit, ensures={"ring_buffer_of_period_plus_one_rows_slot0_holds_initial_values": post_pinit})
+
+def setup_pthr(I):
+    from pyvc.interp import FormatSpec
+    mod = I.load_module("mdpax.solvers.periodic_value_iteration").globals
+    e = z3.Real("epsilon"); I.assume(e > 0)
+    s = Obj(mod["PeriodicValueIteration"], {"epsilon": e}, label="solver")
+    return Ctx(self=s, _args=[], e=e)
+import contracts.logging_configs      # contract of get_convergence_format (callers only need "a valid spec")
+contract(f"{PV}._setup_convergence_testing", setup=setup_pthr,
+    ensures={"threshold_is_epsilon": lambda c, q: toz3(c.self.attrs["conv_threshold"]) == c.e,
+             "test_is_the_periodic_span": lambda c, q: z3.BoolVal(c.self.attrs["_convergence_test_fn"].qualname.endswith("_get_periodic_span"))})
+def setup_clear(flag):
+    def setup(I):
+        mod = I.load_module("mdpax.solvers.periodic_value_iteration").globals
+        s = Obj(mod["PeriodicValueIteration"], {"clear_value_history_on_convergence": flag, "value_history": SArr((2, N), lambda idx: 0)}, label="solver")
+        return Ctx(self=s, _args=[], flag=flag)
+    return setup
+contract(f"{PV}._clear_value_history", scenarios=[("on.", setup_clear(True)), ("off.", setup_clear(False))], modifies={"value_history"},
+    ensures={"cleared_iff_flag": lambda c, q: z3.BoolVal((c.self.attrs["value_history"] is None) == c.flag)})
